@@ -425,7 +425,8 @@ class ConfigParser(object):
         if len(cp[override.section]) == 0:
           cp.remove_section(override.section)
       else:
-        cp[override.section][override.key] = override.value
+        # blanks around a value are not significant in a configuration file ('key :  value ')
+        cp[override.section][override.key] = override.value.strip()
 
     # Add additional values
     for override in additional:
@@ -437,7 +438,8 @@ class ConfigParser(object):
       # [Variables] is the parser's default section: it always exists and can't be created with add_section()
       if not cp.has_section(override.section) and override.section != cp.default_section:
         cp.add_section(override.section)
-      cp[override.section][override.key] = override.value
+      # blanks around a value are not significant in a configuration file ('key :  value ')
+      cp[override.section][override.key] = override.value.strip()
 
     return cp
 
